@@ -18,7 +18,7 @@ CHECKS = {
             "'Structurally valid' = accepted by COMMAND_REGEX with a legal address set; the undocumented 1-address ' I' CLI form is not judged; log sessions run on a virtual clock with a fake serial port.",
             "round-trip (parse/print) monitor + log write/replay differential on the real logger and replayer", "§3 C02"),
     "C07": ("fault_enumeration",
-            "Client-boundary history monitor: the real PortProtocol + ProtocolContext run on a virtual-time event loop against a scripted transport; every send_cmd() call/return is recorded and judged (completes by call + min(timeout,20) + measured impersonation-notice time; returned packet is this caller's own echo or matching reply, never another's; any exception is in the ProtocolError family; no hang incl. the loop thread blocking on the sender's lock). Systematic single-caller walk over the arrival alphabet {lost, prompt, T-eps, T, T+eps, duplicated, reply-before-echo, near-miss foreign packets} x QoS settings x gateway QoS modes, plus seeded multi-caller, duplicate-command, burst (2..40 callers) and transport-fault episodes (disconnect with library / serial errors in every state, reconnect, pause, write failures).",
+            "Client-boundary history monitor: the real PortProtocol + ProtocolContext run on a virtual-time event loop against a scripted transport; every send_cmd() call/return is recorded and judged (completes by call + min(timeout,20) + measured impersonation-notice time; returned packet is this caller's own echo or matching reply, never another's; any exception is in the ProtocolError family; no hang incl. the loop thread blocking on the sender's lock). Systematic single-caller walk over the arrival alphabet {lost, prompt, T-eps, T, T+eps, at-timeout (queued between the timer's expiry and its deferred retransmit), duplicated, reply-before-echo, near-miss foreign packets incl. other fault-log indexes} x QoS settings x gateway QoS modes, plus seeded multi-caller, duplicate-command, burst (2..40 callers) and transport-fault episodes (disconnect with library / serial errors in every state, reconnect, pause, write failures); plus an integration slice that runs the same client-boundary oracle end to end on the real PortTransport over a fake serial port (echo/reply loss and delay, serial read errors, sync-cycle avoidance live).",
             "Scripted transport calls the same protocol callbacks as the real ones; virtual clock; protocol_fsm.dt (queue tie-break) left on the wall clock; callers use distinct request contexts except deliberate identical twins.",
             "client-boundary history + executable oracle over fault-scripted episodes on a virtual clock", "§3 C07"),
     "C08": ("fault_enumeration",
@@ -26,7 +26,7 @@ CHECKS = {
             "Back-off clause applied to echo-less attempts (when the echo arrived and only the reply is missing the code keeps the wait constant: recorded, not judged); queue order judged at the dequeue tap (a time marker inside the library) against call/inner-call events at the boundary.",
             "write-boundary ledger + executable oracle over fault-scripted episodes on a virtual clock", "§3 C08"),
     "C09": ("fault_enumeration",
-            "Quiescent-point invariant + aftermath probe over the same episodes: after a 30 s virtual quiet period the FSM is IsInIdle (Inactive iff disconnected), nothing live in flight or queued, every caller answered, the authors' is_sending predicate holds; after reconnecting (same protocol, new transport) a probe send to a responsive device succeeds; zero 'Coding error' assertions anywhere (caller exceptions, event-loop exception handler, library log) and zero unhandled loop exceptions during the episode.",
+            "Quiescent-point invariant + aftermath probe over the same episodes: after a 30 s virtual quiet period the FSM is IsInIdle (Inactive iff disconnected), nothing live in flight or queued, every caller answered, the authors' is_sending predicate holds; after reconnecting (same protocol, new transport) a probe send to a responsive device succeeds; zero 'Coding error' assertions anywhere (caller exceptions, event-loop exception handler, library log) and zero unhandled loop exceptions during the episode; the aftermath probe and the loop-exception monitor are also run on the real PortTransport (integration slice).",
             "The probe and its writes are exempt from scripted faults; 'Future exception was never retrieved' for the rig's own injected link error is ignored (the rig never awaits wait_for_connection_lost).",
             "invariant at quiescent points + aftermath probe + loop-exception/log monitors over fault-scripted episodes", "§3 C09"),
     "C05": ("exploration",
